@@ -417,6 +417,16 @@ def list_method(I, st, ref, h, name, args, kwargs, node):
         h.arr = arr_store(arr, k, n, args[0], to_term)
         h.n = n + 1
         return [(st, None)]
+    if name == "insert" and len(args) == 2 and isinstance(args[0], int) and args[0] >= 0 and not isinstance(k, tuple):
+        # list.insert(i, x) on an abstract list, concrete i >= 0: position min(i, n) takes x, the tail shifts right
+        na = fresh_arr("ins", k)
+        j = z3.Int(fresh_name("j"))
+        pos = z3.If(n < args[0], n, z3.IntVal(args[0]))
+        st.assume(z3.Select(na, pos) == to_term(args[1], k),
+                  z3.ForAll([j], z3.Implies(z3.And(0 <= j, j < pos), z3.Select(na, j) == z3.Select(arr, j))),
+                  z3.ForAll([j], z3.Implies(z3.And(pos <= j, j < n), z3.Select(na, j + 1) == z3.Select(arr, j))))
+        h.arr, h.n = na, n + 1
+        return [(st, None)]
     if name == "__len__":
         return [(st, Sym(n, "int"))]
     if name == "clear":
@@ -770,6 +780,11 @@ def set_method(I, st, ref, h, name, args, kwargs, node):
             k = to_term(args[0], h.kk)
             h.size = z3.If(z3.Select(h.dom, k), h.size - 1, h.size)
             h.dom = z3.Store(h.dom, k, False)
+            return [(st, None)]
+        if name == "clear" and not isinstance(h.kk, tuple):
+            st.written.add((ref.id, "*"))
+            h.dom = z3.K(KIND_SORT[h.kk], z3.BoolVal(False))
+            h.size = z3.IntVal(0)
             return [(st, None)]
         if name == "copy":
             return [(st, st.alloc(HSet(dom=h.dom, size=h.size, kk=h.kk)))]
